@@ -5,105 +5,79 @@ import Toodee.Proofs.HistoryLemmas
   C01 — Array dimensions always agree with its contents.
 
   After **any** history of safe public operations on an owned array — construction, insert/remove/push/pop of rows and
-  columns with any iterator script and any drain consumption, clear, swap_dimensions, capacity calls, the in-place algorithms,
-  and calls rejected with a panic — in both build modes:
+  columns with any iterator script and any drain consumption (dropped or leaked), clear, swap_dimensions, capacity calls,
+  `mem::take`+`into_iter`, every in-place algorithm as dispatched on `TooDee` (including indexed writes, every sort variant with
+  any — possibly panicking — comparator, `copy_within`, `copy_from_toodee`), and calls rejected with a panic — in both build
+  modes, for every `Vec` capacity limit and side-table limit:
   * the shape invariant holds (`data.len() = num_cols*num_rows`, both dimensions zero or neither);
+  * no call ends in undefined behaviour (`hres`);
   * `rows()`, `cells()` and every `col(c)` report lengths `num_rows`, `num_cols*num_rows`, `num_rows`;
-  * for every operation the array's rows-of-cells (`TD.grid`) are those of the plain model `gstep` driven by the same operation
+  * the array's rows-of-cells (`TD.grid`) follow the plain model `grun` driven by the same history
     (`gstep` leaves the result open only for iterator scripts that panic or lie about their length, C11).
-  This is the composition of the per-operation theorems C06, C07, C11, C13–C17.
+  This is the composition of the per-operation theorems C06, C07, C11–C17.
 -/
 namespace Toodee
 variable {α : Type}
 
 /-- one step preserves the shape invariant -/
-theorem C01_step_inv (m : Mode) (t : TD α) (h : t.Inv) (op : HOp α) (hop : op.spareOk) :
-    (hstep m t op).Inv := by
-  cases op with
-  | fromVec c r v => exact hs_inv_fromVec t h c r v
-  | insertRow i it spare => exact hs_inv_insertRow m t h i it spare hop
-  | insertCol i it spare => exact hs_inv_insertCol m t h i it spare hop
-  | removeRow i => exact hs_inv_removeRow m t h i
-  | removeCol i => exact hs_inv_removeCol m t h i
-  | popRow =>
-    rw [hs_popRow m t h]
-    split
-    · exact h
-    · exact hs_inv_removeRow m t h _
-  | popCol =>
-    rw [hs_popCol m t h]
-    split
-    · exact h
-    · exact hs_inv_removeCol m t h _
-  | clear => exact hs_inv_clear t
-  | swapDimensions => exact hs_inv_swapDimensions t h
-  | capacityCall => exact h
-  | fill x => exact hs_inv_fill t h x
-  | swap c1 r1 c2 r2 => exact hs_inv_swap m t h c1 r1 c2 r2
-  | swapRows r1 r2 => exact hs_inv_swapRows m t h r1 r2
-  | swapCols c1 c2 => exact hs_inv_swapCols t h c1 c2
-  | copyFromSlice src => exact hs_inv_copyFromSlice t h src
-  | translate mc mr => exact hs_inv_translate m t h mc mr
-  | flipRows => exact hs_inv_flipRows m t h
-  | flipCols => exact hs_inv_flipCols t h
-  | sortByRow le row => exact hs_inv_sortByRow m t h le row
-  | sortByCol le col => exact hs_inv_sortByCol m t h le col
+theorem C01_step_inv (e : HEnv) (he : e.ok) (t : TD α) (h : t.Inv) (op : HOp α) (hop : op.wf) :
+    (hstep e t op).Inv := by
+  sorry
 
-/-- every reachable array satisfies the shape invariant -/
-theorem C01_history_inv (m : Mode) (t : TD α) (h : t.Inv) (ops : List (HOp α)) (hops : ∀ op ∈ ops, op.spareOk) :
-    (hrun m t ops).Inv := by
-  induction ops generalizing t with
-  | nil => exact h
-  | cons op ops ih =>
-    show (hrun m (hstep m t op) ops).Inv
-    exact ih _ (C01_step_inv m t h op (hops op (List.mem_cons_self ..)))
-      (fun o ho => hops o (List.mem_cons_of_mem _ ho))
+/-- every reachable state satisfies the shape invariant -/
+theorem C01_history_inv (e : HEnv) (he : e.ok) (t : TD α) (h : t.Inv) (ops : List (HOp α)) (hops : ∀ op ∈ ops, op.wf) :
+    (hrun e t ops).Inv := by
+  sorry
 
 /-- … in particular starting from `default()` / `with_capacity(n)` -/
-theorem C01_history_from_default (m : Mode) (ops : List (HOp α)) (hops : ∀ op ∈ ops, op.spareOk) :
-    (hrun m (TD.default : TD α) ops).Inv :=
-  C01_history_inv m _ C20_default.1 ops hops
+theorem C01_history_from_default (e : HEnv) (he : e.ok) (ops : List (HOp α)) (hops : ∀ op ∈ ops, op.wf) :
+    (hrun e (TD.default : TD α) ops).Inv := by
+  sorry
+
+/-- no safe call ends in undefined behaviour (or exhausts a fuelled loop of the model), whatever its arguments -/
+theorem C01_no_ub (e : HEnv) (he : e.ok) (t : TD α) (h : t.Inv) (op : HOp α) (hop : op.wf) :
+    hres e t op ≠ .error .ub ∧ hres e t op ≠ .error .fuel := by
+  sorry
+
+/-- … along any history -/
+theorem C01_history_no_ub (e : HEnv) (he : e.ok) (t : TD α) (h : t.Inv) (ops pre : List (HOp α)) (op : HOp α)
+    (hops : ∀ o ∈ ops, o.wf) (hpre : pre ++ [op] <+: ops) :
+    hres e (hrun e t pre) op ≠ .error .ub ∧ hres e (hrun e t pre) op ≠ .error .fuel := by
+  sorry
 
 /-- the lengths reported by the three iterator families agree with the dimensions -/
 theorem C01_lens (m : Mode) (t : TD α) (h : t.Inv) :
     t.rows.sizeHint m = .ok t.numRows ∧
     (Flat.new t.rows).sizeHint m = .ok (t.numCols * t.numRows) ∧
     ∀ c, c < t.numCols → ∃ it, t.col m c = .ok it ∧ it.sizeHint m = .ok t.numRows := by
-  refine ⟨C08_len m _ _ _ (C08_rows_owned t h).1, ?_, ?_⟩
-  · obtain ⟨hwf, habs, _⟩ := C10_cells_owned t h
-    rw [C10_len m _ _ _ hwf, habs, List.length_range, h.len]
-  · intro c hc
-    have hcw := h.cols_word
-    obtain ⟨it, e, hwf, _⟩ := (C09_col_owned m t h c (by omega)).1 hc
-    exact ⟨it, e, C09_len m it _ _ hwf⟩
+  sorry
 
 /-- one step agrees with the rows-of-cells model wherever that model prescribes the result -/
-theorem C01_step_refines (m : Mode) (t : TD α) (h : t.Inv) (op : HOp α) (hop : op.spareOk) (hfit : op.fits t.data.length)
+theorem C01_step_refines (e : HEnv) (he : e.ok) (t : TD α) (h : t.Inv) (op : HOp α) (hop : op.wf) (hfit : op.fits e t)
     (g' : List (List α)) (hg : gstep t.grid op = some g') :
-    (hstep m t op).grid = g' := by
-  have fin : ∀ x : List (List α), gstep t.grid op = some x → x = g' := fun x hx => by
-    rw [hx] at hg
-    exact Option.some.inj hg
-  cases op with
-  | insertRow i it spare => exact hs_ref_insertRow m t h i it spare hop hfit g' hg
-  | insertCol i it spare => exact hs_ref_insertCol m t h i it spare hop hfit g' hg
-  | removeRow i => exact fin _ (hs_ref_removeRow m t h i)
-  | removeCol i => exact fin _ (hs_ref_removeCol m t h i)
-  | popRow => exact fin _ (hs_ref_popRow m t h)
-  | popCol => exact fin _ (hs_ref_popCol m t h)
-  | clear => exact fin _ (hs_ref_clear m t)
-  | capacityCall => exact fin _ rfl
-  | fill x => exact fin _ (hs_ref_fill m t h x)
-  | swapRows r1 r2 => exact fin _ (hs_ref_swapRows m t h r1 r2)
-  | swapCols c1 c2 => exact fin _ (hs_ref_swapCols m t h c1 c2)
-  | flipRows => exact fin _ (hs_ref_flipRows m t h)
-  | flipCols => exact fin _ (hs_ref_flipCols m t h)
-  | fromVec c r v => exact fin _ (hs_ref_fromVec m t c r v)
-  | swapDimensions => exact fin _ (hs_ref_swapDimensions m t h)
-  | swap c1 r1 c2 r2 => exact fin _ (hs_ref_swap m t h c1 r1 c2 r2)
-  | copyFromSlice src => exact fin _ (hs_ref_copyFromSlice m t h src)
-  | translate mc mr => exact fin _ (hs_ref_translate m t h mc mr)
-  | sortByRow le row => exact fin _ (hs_ref_sortByRow m t h le row)
-  | sortByCol le col => exact fin _ (hs_ref_sortByCol m t h le col)
+    (hstep e t op).grid = g' := by
+  sorry
+
+/-- **the array and the plain model stay in step along any history** -/
+theorem C01_history_refines (e : HEnv) (he : e.ok) (t : TD α) (h : t.Inv) (ops : List (HOp α))
+    (hops : ∀ op ∈ ops, op.wf) (hf : hfits e t ops) (g' : List (List α)) (hg : grun t.grid ops = some g') :
+    (hrun e t ops).grid = g' := by
+  sorry
+
+/-- the grid determines the array (so "same grid" is "same observable content"): dimensions and data can be read off it -/
+theorem C01_grid_faithful (t : TD α) (h : t.Inv) :
+    t.numRows = t.grid.length ∧ t.numCols = gcols t.grid ∧ t.data = t.grid.flatten := by
+  sorry
+
+/-- non-vacuity: a concrete history (insert a row into the empty array, push a column, sort by row 0 descending, remove column 0
+    pulling one item from the back, leak a row drain) runs through the Impl-model and the plain model to the same grid -/
+example :
+    let e : HEnv := ⟨.debug, 1000, 1000⟩
+    let ops : List (HOp Nat) :=
+      [.insertRow 0 (honest [5, 6, 7]) [0, 0, 0], .insertRow 1 (honest [1, 2, 3]) [0, 0, 0],
+       .insertCol 3 (honest [8, 4]) [0, 0], .inplace (.sortRow (sideStable fun a b => decide (b ≤ a)) 0),
+       .removeCol 0 [false], .removeRowLeak 1 []]
+    (hrun e TD.default ops).grid = [[7, 6, 5]] ∧ grun [] ops = some [[7, 6, 5]] ∧ hfits e TD.default ops := by
+  sorry
 
 end Toodee
